@@ -740,6 +740,10 @@ func goCode(root string, unit string) string {
 			"Actor":    {"SelectLink", "ProfilePic", "Banner"},
 		}, "pub/link.go")
 		emit("pub/post.go, pub/activity.go, pub/actor.go (link numbering and selection)", text, errs)
+	case "gemtext":
+		header("Model.GoSem", "Model.GoText", "Model.GoStrings", "Model.Style", "Generated.GoAnsih", "Generated.GoStyle")
+		text, errs := translateGemtext(root)
+		emit("gemtext/gemtext.go, plaintext/plaintext.go (the Markup struct, NewMarkup, Render, renderWithLinks)", text, errs)
 	default:
 		b.WriteString("-- unknown unit " + unit + "\n")
 	}
